@@ -28,6 +28,10 @@ SCENARIOS = [
     {".gitignore": "*.md\n", "a/.gitignore": "!/keep.md\n!b/*.md\n", "a/keep.md": "k", "a/b/x.md": "x", "a/b/c/y.md": "y", "a/z.md": "z"},
     {"a/.gitignore": "a/*.md\n", "a/x.md": "x", "a/a/y.md": "y", ".gitignore": "q.md\n"},
     {".gitignore": "bld/\n", "x/.gitignore": "!bld/\n", "x/bld/in.md": "i", "bld/out.md": "o"},
+    # only a line that STARTS with '#' is a comment; ' #' inside a line belongs to the pattern; '\\#' escapes; trailing spaces
+    {".gitignore": "# real comment\ndraft.md # wip\nnotes #2.md\n\\#x.md\n*.md\n!keep.md # not a negation of keep.md\n!x#1.md\n   \nz.md   \n",
+     "draft.md": "d", "notes #2.md": "n", "#x.md": "h", "keep.md": "k", "x#1.md": "x", "z.md": "z", "sub/draft.md": "s"},
+    {".gitignore": "a.md\n", "s/.gitignore": "# c\n!a.md\nb.md #\n", "s/a.md": "a", "s/b.md": "b", "s/b.md #": "odd", "a.md": "top"},
 ]
 
 
@@ -75,7 +79,7 @@ def bounded(tier, seed):
         finally:
             shutil.rmtree(base, ignore_errors=True)
     return {"evaluations": evals, "distinct_nontrivial": len(distinct), "violations": viol, "samples": samples,
-            "rule": "10 hand-written scenarios (ignored directories with later / nested negations, anchored and multi-segment patterns in "
+            "rule": "12 hand-written scenarios (incl. comment / '#' / escape handling of ignore lines) (ignored directories with later / nested negations, anchored and multi-segment patterns in "
                     "nested files, re-included directories) + seeded trees with .gitignore files (1-3 lines each from an 18-line pool) at any level: the .md files returned by a "
                     "traversal (no default excludes) equal the .md files of `git ls-files -co --exclude-standard`; with "
                     "respect_gitignore=False every .md file is returned; distinct = distinct git results",
